@@ -4,6 +4,9 @@
 // This file contains no executable code; only the //@ lines are read.
 package overlay
 
+//@ func wrapReuseError(msg string) (r error)
+//@   ensures an-error-is-returned: r != nil
+
 // ---- C41: per-call clauses of the connection reuse negotiation (the convergence of two concurrent
 // negotiations is a schedule property and is not decided here).
 //@ func (t *QUIC) reuseConnection(ctx context.Context, q *quic.Conn, s *quic.Stream, dir direction) (conn *nodeConnection, reused bool, err error)
@@ -11,13 +14,20 @@ package overlay
 //@   opt frame=off
 //@   requires t != nil && t.cachedConnections != nil
 //@   at call ExtractCertificateIdentity#1: assume crypto-tls-verified-chains-hold-parsed-certificates: callarg0 != nil
-//@   requires cached-entries-are-existing-connections: forall k string {t.cachedConnections.m[k]} :: t.cachedConnections.keys[k] ==> (t.cachedConnections.m[k] != nil && allocated(t.cachedConnections.m[k]))
+//@   requires env-cached-entries-are-existing-connections: forall k string {t.cachedConnections.m[k]} :: t.cachedConnections.keys[k] ==> (t.cachedConnections.m[k] != nil && allocated(t.cachedConnections.m[k]))
 //@   ghost locked bool = false
 //@   ghost rechecked bool = false
 //@   ghost lastLoaded *nodeConnection = nil
 //@   ghost lastOk bool = false
 //@   ghost stored bool = false
 //@   ghost closedFresh bool = false
+//@   ghost reported bool = false
+//@   ghost reportedCached bool = false
+//@   ghost sampled *nodeConnection = nil
+//@   at call Send#2: assert the-cache-state-reported-to-the-peer-is-the-one-sampled-under-the-read-lock: !locked && callarg1 == negotiation && (lastOk ==> (negotiation.CacheState == protocol.Connection_CACHED && negotiation.CacheDirection == (lastLoaded.direction == directionIncoming ? protocol.Connection_INCOMING : protocol.Connection_OUTGOING))) && (!lastOk ==> (negotiation.CacheState == protocol.Connection_FRESH && negotiation.CacheDirection == (dir == directionIncoming ? protocol.Connection_INCOMING : protocol.Connection_OUTGOING)))
+//@   at call Send#2: ghost reported := true
+//@   at call Send#2: ghost reportedCached := lastOk
+//@   at call Send#2: ghost sampled := lastLoaded
 //@   at call Lock#1: ghost locked := true
 //@   at after call Lock#1: havoc t.cachedConnections.m, t.cachedConnections.keys
 //@   at after call Lock#1: assume other-negotiations-may-have-cached-a-connection-meanwhile-entries-stay-existing-connections: forall k string {t.cachedConnections.m[k]} :: t.cachedConnections.keys[k] ==> (t.cachedConnections.m[k] != nil && allocated(t.cachedConnections.m[k]) && t.cachedConnections.m[k] != fresh)
@@ -28,11 +38,72 @@ package overlay
 //@   at call CloseWithError#*: assert only-the-new-connection-is-ever-closed-by-the-negotiation: callarg0 == q && callarg0 == fresh.quic && lastOk && locked
 //@   at call CloseWithError#*: ghost closedFresh := true
 //@   at call Store#*: assert a-new-connection-is-cached-only-if-the-peer-caches-the-same-one-and-none-is-cached: locked && rechecked && !lastOk && callarg1 == qKey && callarg2 == fresh && negotiation.CacheState == protocol.Connection_FRESH && ((negotiation.CacheDirection == protocol.Connection_INCOMING && dir != directionIncoming) || (negotiation.CacheDirection == protocol.Connection_OUTGOING && dir == directionIncoming))
+//@   at call Store#*: assert a-new-connection-is-cached-only-by-a-side-that-reported-fresh-so-the-peer-decided-on-the-same-report: reported && !reportedCached
 //@   at call Store#*: ghost stored := true
 //@   ensures local-a-reused-connection-is-the-cached-entry-and-stays-open: reused ==> (err == nil && conn == lastLoaded && lastOk && conn != fresh && !stored)
+//@   ensures local-a-side-that-reported-a-cached-connection-decides-on-that-connection: (reused && reportedCached) ==> conn == sampled
+//@   ensures local-a-side-that-reported-fresh-reuses-only-what-it-found-under-the-write-lock: (reused && !reportedCached) ==> rechecked
 //@   ensures local-a-redundant-new-connection-is-closed-by-exactly-the-side-the-table-names: reused ==> (closedFresh == !(negotiation.CacheState == protocol.Connection_CACHED && negotiation.CacheDirection == protocol.Connection_OUTGOING))
 //@   ensures local-a-new-connection-is-returned-only-after-it-was-cached: (!reused && conn != nil) ==> (err == nil && conn == fresh && stored && !closedFresh)
 //@   ensures local-errors-return-nothing-and-cache-nothing: err != nil ==> (conn == nil && !reused && !stored)
+//@   ensures success-returns-a-connection: err == nil ==> conn != nil
+//@   ensures a-new-connection-wraps-the-negotiated-quic-connection: (err == nil && !reused) ==> conn.quic == q
+
+// The two callers of the negotiation. reapPeer (started by handlePeer's goroutines when the connection they watch
+// closes) removes and closes WHATEVER is cached under the peer's key, so the per-connection handlers may only be
+// started for the connection that the negotiation just cached - never for a redundant new connection that the
+// negotiation closes, whose reaping would close the reused cached connection.
+//@ func (t *QUIC) handleOutgoing(ctx context.Context, q *quic.Conn) (rq *quic.Conn, err error)
+//@   safety off
+//@   opt frame=off
+//@   requires t != nil && t.cachedConnections != nil
+//@   ghost negotiated bool = false
+//@   ghost c *nodeConnection = nil
+//@   ghost cq *quic.Conn = nil
+//@   ghost cpeer *protocol.Node = nil
+//@   ghost wasReused bool = false
+//@   ghost nerr error = nil
+//@   ghost started int = 0
+//@   at call reuseConnection#1: assert the-dialed-connection-is-negotiated-as-outgoing: callarg2 == q && callarg4 == directionOutgoing && !negotiated
+//@   at after call reuseConnection#1: ghost c := callresult0
+//@   at after call reuseConnection#1: ghost cq := (callresult0 == nil ? nil : callresult0.quic)
+//@   at after call reuseConnection#1: ghost cpeer := (callresult0 == nil ? nil : callresult0.peer)
+//@   at after call reuseConnection#1: ghost wasReused := callresult1
+//@   at after call reuseConnection#1: ghost nerr := callresult2
+//@   at after call reuseConnection#1: ghost negotiated := true
+//@   at call reuseConnection#?: assert negotiated-once: !negotiated
+//@   at call handlePeer#?: assert handlers-are-started-only-for-the-connection-the-negotiation-just-cached: negotiated && nerr == nil && !wasReused && started == 0 && callarg2 == cq && cq == q && callarg3 == cpeer && callarg4 == directionOutgoing
+//@   at call handlePeer#?: ghost started := started + 1
+//@   ensures local-a-newly-cached-connection-gets-its-handlers-exactly-once: (err == nil && !wasReused) ==> started == 1
+//@   ensures local-a-reused-or-failed-negotiation-starts-no-handlers: (err != nil || wasReused) ==> started == 0
+//@   ensures local-the-negotiated-connection-is-returned: err == nil ==> (negotiated && nerr == nil && rq == cq)
+//@   ensures local-errors-return-no-connection: err != nil ==> rq == nil
+
+//@ func (t *QUIC) handleIncoming(ctx context.Context, q *quic.Conn) (rq *quic.Conn, err error)
+//@   safety off
+//@   opt frame=off
+//@   requires t != nil && t.cachedConnections != nil
+//@   ghost negotiated bool = false
+//@   ghost c *nodeConnection = nil
+//@   ghost cq *quic.Conn = nil
+//@   ghost cpeer *protocol.Node = nil
+//@   ghost wasReused bool = false
+//@   ghost nerr error = nil
+//@   ghost started int = 0
+//@   at call reuseConnection#1: assert the-accepted-connection-is-negotiated-as-incoming: callarg2 == q && callarg4 == directionIncoming && !negotiated
+//@   at after call reuseConnection#1: ghost c := callresult0
+//@   at after call reuseConnection#1: ghost cq := (callresult0 == nil ? nil : callresult0.quic)
+//@   at after call reuseConnection#1: ghost cpeer := (callresult0 == nil ? nil : callresult0.peer)
+//@   at after call reuseConnection#1: ghost wasReused := callresult1
+//@   at after call reuseConnection#1: ghost nerr := callresult2
+//@   at after call reuseConnection#1: ghost negotiated := true
+//@   at call reuseConnection#?: assert negotiated-once: !negotiated
+//@   at call handlePeer#?: assert handlers-are-started-only-for-the-connection-the-negotiation-just-cached: negotiated && nerr == nil && !wasReused && started == 0 && callarg2 == cq && cq == q && callarg3 == cpeer && callarg4 == directionIncoming
+//@   at call handlePeer#?: ghost started := started + 1
+//@   ensures local-a-newly-cached-connection-gets-its-handlers-exactly-once: (err == nil && !wasReused) ==> started == 1
+//@   ensures local-a-reused-or-failed-negotiation-starts-no-handlers: (err != nil || wasReused) ==> started == 0
+//@   ensures local-the-negotiated-connection-is-returned: err == nil ==> (negotiated && nerr == nil && rq == cq)
+//@   ensures local-errors-return-no-connection: err != nil ==> rq == nil
 
 //@ func (t *QUIC) reapPeer(q *quic.Conn, peer *protocol.Node)
 //@   safety off
